@@ -8,5 +8,8 @@ package route
 // (otherwise such a defect would surface in unrelated histories and not replay).
 // The small map also spares every GC cycle the scan of the 100000 pre-sized buckets.
 func ZZVerifResetBGPPathACache() {
-	bgpC = &bgpPathACache{cache: make(map[BGPPathA]*BGPPathA)}
+	bgpC = &bgpPathACache{cache: zzVerifEmptyLike(bgpC.cache)}
 }
+
+// zzVerifEmptyLike: an empty map of the same type, whatever the cache is keyed by
+func zzVerifEmptyLike[K comparable, V any](map[K]V) map[K]V { return make(map[K]V) }
